@@ -225,3 +225,26 @@ func RunImplBatch(cases []ImplCase, nproc int) []Outcome {
 	}
 	return res
 }
+
+// RunJobsFresh runs every job in a worker process of its own (a fresh
+// process: cold caches, new pools), nproc at a time.
+func RunJobsFresh(cases []Job, nproc int) []string {
+	res := make([]string, len(cases))
+	self, err := os.Executable()
+	if err != nil {
+		panic(err)
+	}
+	sem := make(chan struct{}, nproc)
+	var wg sync.WaitGroup
+	for i := range cases {
+		wg.Add(1)
+		sem <- struct{}{}
+		go func(i int) {
+			defer wg.Done()
+			defer func() { <-sem }()
+			runShard(self, cases, res, i, i+1)
+		}(i)
+	}
+	wg.Wait()
+	return res
+}
